@@ -74,9 +74,9 @@ theorem gen_params_irrelevant (tr : Ctor.Tree) (b : Bool)
 theorem accNames_append (a b : List Acc) (get : Bool) : accNames (a ++ b) get = accNames a get ++ accNames b get := by
   cases get <;> simp [accNames]
 
-theorem jpick_irrelevant (get : Bool) (t : NType) (a b : List Acc) (fs : List Ctor.Field)
-    (h : ∀ f ∈ fs, flagOf get t f = true ∨ (accNames a get).contains (accKey get f.name) = false) :
-    jpick get t (a ++ b) fs = jpick get t b fs := by
+theorem jpick_irrelevant (get : Bool) (sw : Bool × Bool) (t : NType) (a b : List Acc) (fs : List Ctor.Field)
+    (h : ∀ f ∈ fs, flagOf get sw t f = true ∨ (accNames a get).contains (accKey get f.name) = false) :
+    jpick get sw t (a ++ b) fs = jpick get sw t b fs := by
   simp only [jpick]
   congr 1
   apply List.filter_congr
@@ -92,15 +92,15 @@ theorem jpick_irrelevant (get : Bool) (t : NType) (a b : List Acc) (fs : List Ct
       simp [h1']
     rw [this]
 
-theorem accRelevantFor_false {get : Bool} {st : NSt} {t : NType} (h : accRelevantFor get st t = false) :
+theorem accRelevantFor_false {get : Bool} {sw : Bool × Bool} {st : NSt} {t : NType} (h : accRelevantFor get sw st t = false) :
     ∀ f ∈ ((Ctor.flatten t.tree).filter (fun f => !f.isShadowed && !f.isEmbeded)).filter (fun f => !exported f.name),
-      flagOf get t f = true ∨ (accNames st.accs get).contains (accKey get f.name) = false := by
+      flagOf get sw t f = true ∨ (accNames st.accs get).contains (accKey get f.name) = false := by
   intro f hf
   rw [List.mem_filter] at hf
   simp only [accRelevantFor, List.any_eq_false] at h
   have h3 := h f hf.1
   have he : exported f.name = false := by simpa using hf.2
-  cases hfl : flagOf get t f with
+  cases hfl : flagOf get sw t f with
   | true => left; rfl
   | false =>
     right
@@ -124,11 +124,11 @@ theorem newStep_irrelevant (fl : NFlags) (files : Disk) (st : NSt) (t : NType)
       List.nil_append]
   | true =>
     simp only [accRelevant, hj, Bool.true_and, Bool.or_eq_false_iff] at h2
-    have hg := jpick_irrelevant true t st.accs
-      (embedAccs (switchOf fl t) files (((onceAux (Ctor.flatten t.tree) []).filter (·.isEmbeded)).map (·.name)))
+    have hg := jpick_irrelevant true (switchOf fl t) t st.accs
+      (embedAccs (switchOf fl t) files (((onceAux ((Ctor.flatten t.tree).filter (fun f => !f.isShadowed)) []).filter (·.isEmbeded)).map (·.name)))
       _ (accRelevantFor_false h2.1)
-    have hs := jpick_irrelevant false t st.accs
-      (embedAccs (switchOf fl t) files (((onceAux (Ctor.flatten t.tree) []).filter (·.isEmbeded)).map (·.name)))
+    have hs := jpick_irrelevant false (switchOf fl t) t st.accs
+      (embedAccs (switchOf fl t) files (((onceAux ((Ctor.flatten t.tree).filter (fun f => !f.isShadowed)) []).filter (·.isEmbeded)).map (·.name)))
       _ (accRelevantFor_false h2.2)
     simp only [newStep, codeToday, Bool.true_and, ↓reduceIte, hp, hg, hs, List.nil_append]
 
